@@ -231,3 +231,10 @@ def note(info, fmt, *args):
         info['reason'] = fmt % args
     except Exception:
         info['reason'] = fmt
+
+
+def load(yp, code, overwrite=False):
+    """load_script_from_string on concrete code with the tracer off (no symbolic value involved)"""
+    from crosshair.tracers import NoTracing
+    with NoTracing():
+        yp.load_script_from_string(code, overwrite=overwrite)
